@@ -43,6 +43,17 @@ class FieldReader:
         if encoder is not None:
             self.kwargs[field] = encoder(self.kwargs[field])
 
+    def read_exact(self, size: int, field: str) -> bytes:
+        """
+        Read exactly size bytes, or report the truncated input as a parse error
+        """
+        data = self.src.read(size)
+        if len(data) != size:
+            raise ValueError(
+                f'{self.name}: truncated input reading {field}: ' +
+                f'needed {size} bytes, found {len(data)}')
+        return data
+
     def get(self, size, field, mask=None):
         if isinstance(size, (int, int)):
             value = self.src.read(size)
@@ -51,23 +62,23 @@ class FieldReader:
                                size, self.src.tell(), value.encode('hex'))
             return value
         if size == 'B':
-            value = ord(self.src.read(1))
+            value = ord(self.read_exact(1, field))
         elif size == 'H':
-            d = self.src.read(2)
+            d = self.read_exact(2, field)
             value = (d[0] << 8) + d[1]
         elif size in {'I', 'i'}:
-            value = struct.unpack('>' + size, self.src.read(4))[0]
+            value = struct.unpack('>' + size, self.read_exact(4, field))[0]
         elif size == 'Q':
-            value = struct.unpack('>Q', self.src.read(8))[0]
+            value = struct.unpack('>Q', self.read_exact(8, field))[0]
         elif size == '3I':
-            d = self.src.read(3)
+            d = self.read_exact(3, field)
             value = (d[0] << 16) + (d[1] << 8) + d[2]
         elif size == 'S0':
             value = ''
-            d = self.src.read(1)
+            d = self.read_exact(1, field)
             while ord(d) != 0:
                 value += str(d, 'utf-8')
-                d = self.src.read(1)
+                d = self.read_exact(1, field)
             if self.log and self.log.isEnabledFor(logging.DEBUG):
                 self.log.debug('%s: read %s size=%d pos=%d value="%s"',
                                self.name, field,
